@@ -535,7 +535,13 @@ class XArray:
             for x in self.data:
                 tot = tot + x
             return tot
-        axis %= self.ndim
+        if isinstance(axis, (tuple, list)):
+            # several axes: one after the other, from the last to the first (the positions of the others do not move)
+            res = self
+            for ax in sorted({int(a) % self.ndim for a in axis}, reverse=True):
+                res = res.sum(ax) if isinstance(res, XArray) else res
+            return res
+        axis = int(axis) % self.ndim
         moved = self.transpose(*([a for a in range(self.ndim) if a != axis] + [axis]))
         n = self.shape[axis]
         out = []
